@@ -282,7 +282,37 @@ async fn gen_proc(sim: &mut Sim, rng: &mut Prng, stats: &mut Stats, name: &str) 
                 }
                 stats.bump("op_syn");
             }
-            54..=71 => {
+            70..=71 => {
+                // a SYN of n is delayed while n writes, syncs with m, and m alone collects
+                // tombstones; the delayed SYN then reaches m and its answer reaches n (twice)
+                let m = rng.below(live_nodes as u64) as usize;
+                if m != n {
+                    stats.bump("op_stale_syn_roundtrip");
+                    let syn0 = sim.syn(n);
+                    match rng.below(3) {
+                        0 => sim.set(n, pick_key(rng, allow_mb), *rng.pick(VALUES)),
+                        1 => sim.delete(n, pick_key(rng, allow_mb)),
+                        _ => sim.delete_after_ttl(n, pick_key(rng, allow_mb)),
+                    }
+                    if rng.chance(1, 2) {
+                        sim.set(n, pick_key(rng, allow_mb), *rng.pick(VALUES));
+                    }
+                    full_handshake(sim, n, m);
+                    if rng.chance(3, 4) {
+                        sim.tick(kv_grace).await;
+                        sim.gc(m);
+                    }
+                    if let Some(syn0) = syn0 {
+                        if let Some(synack) = sim.deliver(m, &syn0) {
+                            if let Some(ack) = sim.deliver(n, &synack) {
+                                pool.push(ack);
+                            }
+                            sim.deliver(n, &synack);
+                        }
+                    }
+                }
+            }
+            54..=69 => {
                 // deliver any message from the pool to any node
                 if !pool.is_empty() {
                     let i = rng.below(pool.len() as u64) as usize;
